@@ -63,11 +63,32 @@ def gen_updates(rng, call, n):
     return [call(rng, rng.choice([1, 2, 3, 4, 5])) for _ in range(n)]
 
 
+def poison(u, rng):
+    """the same call with one element of one floating-point tensor argument replaced by nan / inf / -inf"""
+    a, k = clone_args(*u)
+    cands = [x for x in list(a) + list(k.values()) if isinstance(x, torch.Tensor) and x.is_floating_point() and x.numel() > 0]
+    if not cands:
+        return None
+    x = rng.choice(cands)
+    x.view(-1)[rng.randrange(x.numel())] = rng.choice([float("nan"), float("inf"), float("-inf")])
+    return a, k
+
+
 def build(case, rng, pre):
     """pre: dict(updates=int, merge=int, reset_mid=bool) -> a metric with that history."""
     label, name, kw, call, cls = case
     m = basecalls.make(name, kw, cls)
     for k, u in enumerate(gen_updates(rng, call, pre["updates"])):
+        if pre.get("special") and rng.random() < 0.6:
+            # non-finite data (where the class accepts it): states holding nan / inf are states too
+            bad = poison(u, rng)
+            try:
+                if bad is None:
+                    raise ValueError
+                do_update(m, bad)
+                continue
+            except Exception:
+                pass
         do_update(m, u)
         if pre.get("compute_mid") and k % 2 == 0:
             compute_val(m)
@@ -101,7 +122,7 @@ def build(case, rng, pre):
 
 def gen_pre(rng):
     return {"updates": rng.choice([0, 1, 2, 2, 4, 7]), "merge": rng.choice([0, 0, 1, 2]), "reset_mid": rng.random() < 0.15,
-            "compute_mid": rng.random() < 0.5, "load_mid": rng.random() < 0.3, "to_mid": rng.choice([False, False, False, True, "toolkit"])}
+            "compute_mid": rng.random() < 0.5, "load_mid": rng.random() < 0.3, "to_mid": rng.choice([False, False, False, True, "toolkit"]), "special": rng.random() < 0.25}
 
 
 def same(a, b):
@@ -261,7 +282,8 @@ def strided(x):
 def c11_case(case, seed, pre, layout):
     label, name, kw, call, cls = case
     rng = random.Random(seed)
-    srcs = [build(case, rng, {"updates": rng.choice([0, 1, 2, 3]), "merge": 0}) for _ in range(rng.choice([1, 2, 3]))]
+    special = seed % 3 == 0
+    srcs = [build(case, rng, {"updates": rng.choice([0, 1, 2, 3]), "merge": 0, "special": special}) for _ in range(rng.choice([1, 2, 3]))]
     before = [(full_state(s), compute_val(s)) for s in srcs]
     tgt = build(case, rng, {"updates": 0 if layout == "fresh-target" else rng.choice([1, 2]), "merge": 0})
     tgt.merge_state(srcs)
